@@ -232,6 +232,11 @@ func (w *inotify) AddWith(path string, opts ...addOpt) error {
 
 	w.mu.Lock()
 	defer w.mu.Unlock()
+	// Check again now that we have the lock: Close() may have been called in
+	// the meanwhile, and the file descriptor may be closed or even re-used.
+	if w.isClosed() {
+		return ErrClosed
+	}
 	path, recurse := recursivePath(path)
 	if recurse {
 		return filepath.WalkDir(path, func(root string, d fs.DirEntry, err error) error {
@@ -311,6 +316,9 @@ func (w *inotify) Remove(name string) error {
 
 	w.mu.Lock()
 	defer w.mu.Unlock()
+	if w.isClosed() { // Closed while we were waiting for the lock.
+		return nil
+	}
 	return w.remove(filepath.Clean(name))
 }
 
